@@ -185,7 +185,11 @@ def rule_coverage(ck: Check, repo: Repo) -> None:
     gtxt = [("" if b else "not ") + ast.unparse(t) for t, b in guards]
     from ..model import walk_no_nested
     ret = [n for n in walk_no_nested(fl) if isinstance(n, ast.Return)]
-    concat = bool(ret) and "subset_output" in ast.unparse(ret[-1].value) and "output.getvalue()" in ast.unparse(ret[-1].value)
+    from ..rules import deep_text as _dt13
+    _rv = _dt13(fl, ret[-1].value) if ret and ret[-1].value is not None else ""
+    # the subset's lines are appended to the project-wide ones: through a local or as the call itself
+    concat = bool(ret) and "output.getvalue()" in ast.unparse(ret[-1].value) and (
+        "subset_output" in ast.unparse(ret[-1].value) or "format_lines_subset(report)" in _rv)
     r.instance("format_lines->subset", {"delegates": ok, "guards": gtxt, "concatenated": concat})
     if not ok or gtxt not in ([], ["not report.is_compliant"]) or not concat:
         r.violation(f"{LINT}.format_lines", "per-file categories not delegated to format_lines_subset(report)",
